@@ -119,6 +119,8 @@ def flat_prog(
             elif none_rate and i not in setup_idx and draw(st.floats(0, 1)) < none_rate:
                 # a side-effect-only function: its result is None (or another falsy constant)
                 spec["kind"], spec["val"] = "const", draw(st.sampled_from([None, None, 0, ""]))
+            if chance(draw, 0.08):
+                spec["partial"] = True  # the node function is a functools.partial object
             fns[fn] = spec
         # dependencies
         if i in setup_idx:
